@@ -93,6 +93,12 @@ func implementations(prog *load.Program, im *types.Func) []*types.Func {
 // membershipBody: the function body (of a declared function or of a function literal bound to a local)
 // answers whether its pi-th parameter is among finitely many stored strings.
 func membershipBody(prog *load.Program, info *types.Info, ftype *ast.FuncType, fbody *ast.BlockStmt, pi int, depth int) bool {
+	return membershipBodyX(prog, info, ftype, fbody, pi, depth, false)
+}
+
+// membershipBodyX: with viaItoa the parameter is a number and the key searched for is a string built from
+// strconv.Itoa(parameter) by concatenation: still only finitely many numbers are answered with yes.
+func membershipBodyX(prog *load.Program, info *types.Info, ftype *ast.FuncType, fbody *ast.BlockStmt, pi int, depth int, viaItoa bool) bool {
 	if depth > 3 || info == nil || ftype.Params == nil {
 		return false
 	}
@@ -114,6 +120,37 @@ func membershipBody(prog *load.Program, info *types.Info, ftype *ast.FuncType, f
 		id, ok := ast.Unparen(e).(*ast.Ident)
 		return ok && info.ObjectOf(id) == param
 	}
+	if viaItoa {
+		// locals defined once from such a string count as the key too
+		keyLocals := map[types.Object]bool{}
+		var isKey func(e ast.Expr) bool
+		isKey = func(e ast.Expr) bool {
+			e = ast.Unparen(e)
+			switch y := e.(type) {
+			case *ast.Ident:
+				return keyLocals[info.ObjectOf(y)]
+			case *ast.BinaryExpr:
+				return y.Op == token.ADD && (isKey(y.X) || isKey(y.Y))
+			case *ast.CallExpr:
+				if cf, _ := typeutil.Callee(info, y).(*types.Func); cf != nil && cf.FullName() == "strconv.Itoa" && len(y.Args) == 1 {
+					id, ok := ast.Unparen(y.Args[0]).(*ast.Ident)
+					return ok && info.ObjectOf(id) == param
+				}
+			}
+			return false
+		}
+		ast.Inspect(d.Body, func(y ast.Node) bool {
+			if as, ok := y.(*ast.AssignStmt); ok && as.Tok == token.DEFINE && len(as.Lhs) == len(as.Rhs) {
+				for i, l := range as.Lhs {
+					if id, ok := l.(*ast.Ident); ok && isKey(as.Rhs[i]) {
+						keyLocals[info.Defs[id]] = true
+					}
+				}
+			}
+			return true
+		})
+		isParam = isKey
+	}
 	eqParam := func(e ast.Expr) bool {
 		// equality with the parameter, exact or up to case (finitely many strings fold to a stored one)
 		if call, ok := ast.Unparen(e).(*ast.CallExpr); ok && len(call.Args) == 2 {
@@ -125,10 +162,14 @@ func membershipBody(prog *load.Program, info *types.Info, ftype *ast.FuncType, f
 		return ok && be.Op == token.EQL && (isParam(be.X) || isParam(be.Y))
 	}
 	// an expression that is a membership answer
+	answerVars := map[types.Object]bool{}
 	var answer func(e ast.Expr) bool
 	answer = func(e ast.Expr) bool {
 		e = ast.Unparen(e)
 		switch x := e.(type) {
+		case *ast.Ident:
+			// a variable that holds an answer (_, ok := search(param))
+			return answerVars[info.ObjectOf(x)]
 		case *ast.BinaryExpr:
 			switch x.Op {
 			case token.LOR, token.LAND:
@@ -183,7 +224,6 @@ func membershipBody(prog *load.Program, info *types.Info, ftype *ast.FuncType, f
 		return false
 	}
 	// variables that hold a membership answer (v, ok := search(param))
-	answerVars := map[types.Object]bool{}
 	ast.Inspect(d.Body, func(y ast.Node) bool {
 		if as, ok := y.(*ast.AssignStmt); ok && len(as.Rhs) == 1 && answer(as.Rhs[0]) {
 			if lid, ok := ast.Unparen(as.Lhs[len(as.Lhs)-1]).(*ast.Ident); ok && lid.Name != "_" {
@@ -396,15 +436,25 @@ func isConstTrue(info *types.Info, e ast.Expr) bool {
 // The candidates are pairwise distinct and each search says yes for finitely many of them, so that
 // iteration comes (the loop's purity until exit is a separate rule).
 func numberingLoop(prog *load.Program, info *types.Info, fd *ast.FuncDecl, fs *ast.ForStmt) (bool, string) {
-	if fs.Cond != nil {
-		return false, ""
-	}
 	inc, ok := fs.Post.(*ast.IncDecStmt)
 	var stepNode ast.Node = fs.Post
 	if fs.Post == nil && len(fs.Body.List) > 0 {
-		// `for { …; n++ }`: the step is the last statement of the body
+		// `for { …; n++ }`: the step is the last statement of the body; with a condition
+		// (`for taken(name + Itoa(n)) { n++; … }`) any statement of the body itself. Either way no `continue`
+		// may skip it.
 		inc, ok = fs.Body.List[len(fs.Body.List)-1].(*ast.IncDecStmt)
+		if !ok && fs.Cond != nil {
+			for _, st := range fs.Body.List {
+				if i, isInc := st.(*ast.IncDecStmt); isInc && i.Tok == token.INC {
+					inc, ok = i, true
+					break
+				}
+			}
+		}
 		stepNode = inc
+		if ok && loopHasContinue(fs) {
+			return false, ""
+		}
 	}
 	if !ok || inc == nil || inc.Tok != token.INC {
 		return false, ""
@@ -429,6 +479,24 @@ func numberingLoop(prog *load.Program, info *types.Info, fd *ast.FuncDecl, fs *a
 				// a local closure numbered(n)
 				if id, ok := ast.Unparen(x.Fun).(*ast.Ident); ok && candLocals[info.ObjectOf(id)] {
 					hit = true
+				}
+				// a function literal bound once to a local, or a moq function, that builds its result from
+				// strconv.Itoa of the parameter the counter is passed for
+				for ai, a := range x.Args {
+					aid, ok := ast.Unparen(a).(*ast.Ident)
+					if !ok || info.ObjectOf(aid) != counter {
+						continue
+					}
+					if id, ok := ast.Unparen(x.Fun).(*ast.Ident); ok {
+						if lit := boundFuncLit(info, fd, id); lit != nil && itoaOfParam(info, lit.Type, lit.Body, ai) {
+							hit = true
+						}
+					}
+					if cf, _ := typeutil.Callee(info, x).(*types.Func); cf != nil && prog.IsMoqPkg(cf.Pkg()) {
+						if d := prog.Decl(cf.Origin()); d != nil && d.Body != nil && itoaOfParam(prog.Info(cf.Pkg()), d.Type, d.Body, ai) {
+							hit = true
+						}
+					}
 				}
 			case *ast.Ident:
 				if candLocals[info.ObjectOf(x)] {
@@ -472,6 +540,10 @@ func numberingLoop(prog *load.Program, info *types.Info, fd *ast.FuncDecl, fs *a
 						if mentionsItoa(a) && membershipBody(prog, info, lit.Type, lit.Body, ai, 1) {
 							return true
 						}
+						// taken(n): the literal builds the candidate itself
+						if aid, ok := ast.Unparen(a).(*ast.Ident); ok && info.ObjectOf(aid) == counter && membershipBodyX(prog, info, lit.Type, lit.Body, ai, 1, true) {
+							return true
+						}
 					}
 				}
 			}
@@ -481,12 +553,22 @@ func numberingLoop(prog *load.Program, info *types.Info, fd *ast.FuncDecl, fs *a
 			if mentionsItoa(a) && isMembership(prog, cf, ai, 0) {
 				return true
 			}
+			if aid, ok := ast.Unparen(a).(*ast.Ident); ok && info.ObjectOf(aid) == counter && prog.IsMoqPkg(cf.Pkg()) {
+				if d := prog.Decl(cf.Origin()); d != nil && d.Body != nil && membershipBodyX(prog, prog.Info(cf.Pkg()), d.Type, d.Body, ai, 1, true) {
+					return true
+				}
+			}
 		}
 		return false
 	}
 	answers := map[types.Object]bool{}
 	nSearch := 0
-	ast.Inspect(fs.Body, func(n ast.Node) bool {
+	var searched ast.Node = fs.Body
+	if fs.Cond != nil {
+		// the condition is searched too (Init and Post hold no searches that matter)
+		searched = &ast.BlockStmt{Lbrace: fs.Cond.Pos(), List: []ast.Stmt{&ast.ExprStmt{X: fs.Cond}, fs.Body}, Rbrace: fs.Body.End()}
+	}
+	ast.Inspect(searched, func(n ast.Node) bool {
 		switch x := n.(type) {
 		case *ast.AssignStmt:
 			if len(x.Rhs) == 1 && isSearch(x.Rhs[0]) {
@@ -534,6 +616,51 @@ func numberingLoop(prog *load.Program, info *types.Info, fd *ast.FuncDecl, fs *a
 		}
 		return false, false, false
 	})
+	if fs.Cond != nil {
+		// with a condition: in the iteration in which every search fails the condition itself lets go
+		cb, ci := firstNodeWithin(f, fs.Cond)
+		if cb < 0 {
+			return false, ""
+		}
+		r := f.Explore(cb, ci, cfgx.Cuts{Decide: dec})
+		if len(fs.Body.List) > 0 {
+			bb, bi := firstNodeWithin(f, fs.Body)
+			if bb < 0 || r.Passed(f.G.Blocks[bb].Nodes[bi]) {
+				return false, ""
+			}
+		}
+		if fs.Post != nil && r.Passed(fs.Post) {
+			return false, ""
+		}
+		if len(fs.Body.List) == 0 && fs.Post == nil {
+			return false, ""
+		}
+		// the answers the condition reads are those of a fresh candidate: every answer variable and every
+		// candidate local is written by a statement of the body itself, once in every iteration
+		topLevel := func(v types.Object) bool {
+			for _, st := range fs.Body.List {
+				if as, ok := st.(*ast.AssignStmt); ok {
+					for _, l := range as.Lhs {
+						if id, ok := ast.Unparen(l).(*ast.Ident); ok && info.ObjectOf(id) == v {
+							return true
+						}
+					}
+				}
+			}
+			return false
+		}
+		for v := range answers {
+			if !topLevel(v) {
+				return false, ""
+			}
+		}
+		for v := range candLocals {
+			if _, isFn := v.Type().Underlying().(*types.Signature); !isFn && !topLevel(v) {
+				return false, ""
+			}
+		}
+		return true, "numbering loop: the candidates built from strconv.Itoa(" + cid.Name + ") are pairwise distinct, each search is a membership test over a finite collection, and in the iteration in which every search fails the condition of the loop is false"
+	}
 	if len(fs.Body.List) == 0 {
 		return false, ""
 	}
@@ -564,6 +691,29 @@ func argShape(info *types.Info, fd *ast.FuncDecl, call *ast.CallExpr) string {
 			params[info.Defs[n]] = true
 		}
 	}
+	// the symbol of a type switch over a parameter is that parameter under another static type
+	ast.Inspect(fd, func(n ast.Node) bool {
+		ts, ok := n.(*ast.TypeSwitchStmt)
+		if !ok {
+			return true
+		}
+		as, ok := ts.Assign.(*ast.AssignStmt)
+		if !ok || len(as.Rhs) != 1 {
+			return true
+		}
+		ta, ok := ast.Unparen(as.Rhs[0]).(*ast.TypeAssertExpr)
+		if !ok {
+			return true
+		}
+		if id, ok := ast.Unparen(ta.X).(*ast.Ident); ok && params[info.ObjectOf(id)] {
+			for _, c := range ts.Body.List {
+				if o := info.Implicits[c]; o != nil {
+					params[o] = true
+				}
+			}
+		}
+		return true
+	})
 	var ss []string
 	for _, a := range call.Args {
 		a = ast.Unparen(a)
@@ -721,4 +871,316 @@ func boundFuncLit(info *types.Info, fd *ast.FuncDecl, id *ast.Ident) *ast.FuncLi
 		return nil
 	}
 	return lit
+}
+
+// countingLoop: a `for` with a condition terminates when one conjunct of the condition compares a local
+// counter with a limit, every write of the counter inside the loop is a constant step towards the limit,
+// one such step is executed in every iteration that goes round (the post statement, or a top-level
+// statement of a body without `continue`), and the limit does not move away: it is pure and mentions
+// nothing the loop writes, or it is itself a counter stepped the other way (two-index loops).
+func (b *bounds) countingLoop(fs *ast.ForStmt) (bool, string) {
+	if fs.Cond == nil {
+		return false, ""
+	}
+	hasContinue := false
+	var scan func(n ast.Node, nested bool)
+	scan = func(n ast.Node, nested bool) {
+		ast.Inspect(n, func(x ast.Node) bool {
+			switch s := x.(type) {
+			case *ast.FuncLit:
+				return false
+			case *ast.ForStmt:
+				if s != fs {
+					scan(s.Body, true)
+					return false
+				}
+			case *ast.RangeStmt:
+				scan(s.Body, true)
+				return false
+			case *ast.BranchStmt:
+				if s.Tok == token.CONTINUE && (!nested || s.Label != nil) {
+					hasContinue = true
+				}
+				if s.Tok == token.GOTO {
+					hasContinue = true
+				}
+			}
+			return true
+		})
+	}
+	scan(fs.Body, false)
+	inLoop := func(at ast.Node) bool {
+		return within(fs, at) && !(fs.Init != nil && within(fs.Init, at))
+	}
+	// direction of a counter: +1 / -1 when every write inside the loop is a constant step that way
+	dir := func(e ast.Expr) (d int, unavoidable bool) {
+		id, ok := ast.Unparen(e).(*ast.Ident)
+		if !ok {
+			return 0, false
+		}
+		v, _ := b.info.ObjectOf(id).(*types.Var)
+		if v == nil || v.IsField() || v.Pkg() == nil || v.Parent() == v.Pkg().Scope() {
+			return 0, false
+		}
+		if bt, ok := v.Type().Underlying().(*types.Basic); !ok || bt.Info()&types.IsInteger == 0 {
+			return 0, false
+		}
+		for _, at := range b.anodes[v] {
+			if !inLoop(at) {
+				continue
+			}
+			st, ok := at.(ast.Stmt)
+			if !ok {
+				return 0, false
+			}
+			s := b.postStep(st, v)
+			if s == 0 || (d != 0 && s != d) {
+				return 0, false
+			}
+			d = s
+			if fs.Post != nil && within(fs.Post, at) {
+				unavoidable = true
+			} else if !hasContinue {
+				for _, top := range fs.Body.List {
+					if top == st {
+						unavoidable = true
+					}
+				}
+			}
+		}
+		// the address of the counter is taken nowhere
+		escaped := false
+		ast.Inspect(b.fd, func(n ast.Node) bool {
+			if u, ok := n.(*ast.UnaryExpr); ok && u.Op == token.AND {
+				if uid, ok := ast.Unparen(u.X).(*ast.Ident); ok && b.info.ObjectOf(uid) == v {
+					escaped = true
+				}
+			}
+			return true
+		})
+		if escaped {
+			return 0, false
+		}
+		return d, unavoidable
+	}
+	// the limit does not move in the direction `away` (+1: does not grow, -1: does not shrink)
+	still := func(e ast.Expr, away int) bool {
+		if d, _ := dir(e); d != 0 {
+			return d == -away
+		}
+		if !b.pure(e) {
+			scope := []ast.Node{fs.Body}
+			if fs.Post != nil {
+				scope = append(scope, fs.Post)
+			}
+			if !b.stillCalls(e, scope...) {
+				return false
+			}
+		}
+		ok := true
+		ast.Inspect(e, func(n ast.Node) bool {
+			switch x := n.(type) {
+			case *ast.SelectorExpr:
+				if b.assignedWithin(x, fs.Body) || (fs.Post != nil && b.assignedWithin(x, fs.Post)) {
+					ok = false
+				}
+			case *ast.Ident:
+				if v, isVar := b.info.ObjectOf(x).(*types.Var); isVar && !v.IsField() {
+					for _, at := range b.anodes[v] {
+						if inLoop(at) {
+							ok = false
+						}
+					}
+				}
+			}
+			return ok
+		})
+		return ok
+	}
+	// what every iteration that goes round has passed: the conjuncts of the condition, and the negation of
+	// each exit test `if counter >= limit || … { …; return / break }` that is a statement of the body itself
+	// (the first one, or any in a body without `continue`)
+	type cmp struct {
+		small, big ast.Expr
+		more       []ast.Expr // further limits on the big side, all of which must stand still
+	}
+	var kept []cmp
+	for _, c := range conjuncts(fs.Cond) {
+		be, ok := ast.Unparen(c).(*ast.BinaryExpr)
+		if !ok {
+			continue
+		}
+		switch be.Op {
+		case token.LSS, token.LEQ:
+			kept = append(kept, cmp{be.X, be.Y, nil})
+		case token.GTR, token.GEQ:
+			kept = append(kept, cmp{be.Y, be.X, nil})
+		}
+	}
+	var disjuncts func(e ast.Expr) []ast.Expr
+	disjuncts = func(e ast.Expr) []ast.Expr {
+		e = ast.Unparen(e)
+		if be, ok := e.(*ast.BinaryExpr); ok && be.Op == token.LOR {
+			return append(disjuncts(be.X), disjuncts(be.Y)...)
+		}
+		return []ast.Expr{e}
+	}
+	for i, st := range fs.Body.List {
+		is, ok := st.(*ast.IfStmt)
+		if !ok || is.Init != nil || len(is.Body.List) == 0 || (i > 0 && hasContinue) {
+			continue
+		}
+		leaves := false
+		switch last := is.Body.List[len(is.Body.List)-1].(type) {
+		case *ast.ReturnStmt:
+			leaves = true
+		case *ast.BranchStmt:
+			leaves = last.Tok == token.BREAK && last.Label == nil
+		}
+		if !leaves {
+			continue
+		}
+		for _, dj := range disjuncts(is.Cond) {
+			// leaving when X >= Y: going round means X < Y; leaving when X >= Y1 && X >= Y2: going round
+			// means X below the larger of the two, which stands still when both do
+			var first *cmp
+			all := true
+			for _, cj := range conjuncts(dj) {
+				be, ok := ast.Unparen(cj).(*ast.BinaryExpr)
+				if !ok {
+					all = false
+					break
+				}
+				var c cmp
+				switch be.Op {
+				case token.GEQ, token.GTR:
+					c = cmp{be.X, be.Y, nil}
+				case token.LEQ, token.LSS:
+					c = cmp{be.Y, be.X, nil}
+				default:
+					all = false
+				}
+				if !all {
+					break
+				}
+				if first == nil {
+					first = &c
+				} else if types.ExprString(ast.Unparen(first.small)) == types.ExprString(ast.Unparen(c.small)) {
+					first.more = append(first.more, c.big)
+				} else {
+					all = false
+					break
+				}
+			}
+			if all && first != nil {
+				kept = append(kept, *first)
+			}
+		}
+	}
+	for _, k := range kept {
+		small, big := k.small, k.big
+		moreStill := true
+		for _, m := range k.more {
+			if !still(m, +1) {
+				moreStill = false
+			}
+		}
+		if d, must := dir(small); d > 0 && must && still(big, +1) && moreStill {
+			return true, "counting loop: " + types.ExprString(small) + " is only ever stepped up inside the loop, once at least per iteration, and the limit " + types.ExprString(big) + " does not grow there"
+		}
+		if d, must := dir(big); d < 0 && must && still(small, -1) && len(k.more) == 0 {
+			return true, "counting loop: " + types.ExprString(big) + " is only ever stepped down inside the loop, once at least per iteration, and the limit " + types.ExprString(small) + " does not shrink there"
+		}
+	}
+	return false, ""
+}
+
+// loopHasContinue: a continue (or goto) inside the body that may go round this loop.
+func loopHasContinue(fs *ast.ForStmt) bool {
+	found := false
+	var scan func(n ast.Node, nested bool)
+	scan = func(n ast.Node, nested bool) {
+		ast.Inspect(n, func(x ast.Node) bool {
+			switch s := x.(type) {
+			case *ast.FuncLit:
+				return false
+			case *ast.ForStmt:
+				if s != fs {
+					scan(s.Body, true)
+					return false
+				}
+			case *ast.RangeStmt:
+				scan(s.Body, true)
+				return false
+			case *ast.BranchStmt:
+				if (s.Tok == token.CONTINUE && (!nested || s.Label != nil)) || s.Tok == token.GOTO {
+					found = true
+				}
+			}
+			return true
+		})
+	}
+	scan(fs.Body, false)
+	return found
+}
+
+// itoaOfParam: every return of the body is a string built by concatenation that contains
+// strconv.Itoa(<the pi-th parameter>) — distinct arguments give distinct results when the other parts are
+// the same (they are: the caller passes the same other arguments in every iteration).
+func itoaOfParam(info *types.Info, ftype *ast.FuncType, body *ast.BlockStmt, pi int) bool {
+	if info == nil || ftype.Params == nil {
+		return false
+	}
+	var param types.Object
+	k := 0
+	for _, f := range ftype.Params.List {
+		for _, nm := range f.Names {
+			if k == pi {
+				param = info.Defs[nm]
+			}
+			k++
+		}
+	}
+	if param == nil {
+		return false
+	}
+	n, okAll := 0, true
+	ast.Inspect(body, func(x ast.Node) bool {
+		if _, isLit := x.(*ast.FuncLit); isLit {
+			return false
+		}
+		rs, ok := x.(*ast.ReturnStmt)
+		if !ok {
+			return true
+		}
+		n++
+		if len(rs.Results) != 1 {
+			okAll = false
+			return true
+		}
+		hit := false
+		var walk func(e ast.Expr)
+		walk = func(e ast.Expr) {
+			e = ast.Unparen(e)
+			switch y := e.(type) {
+			case *ast.BinaryExpr:
+				if y.Op == token.ADD {
+					walk(y.X)
+					walk(y.Y)
+				}
+			case *ast.CallExpr:
+				if cf, _ := typeutil.Callee(info, y).(*types.Func); cf != nil && cf.FullName() == "strconv.Itoa" && len(y.Args) == 1 {
+					if id, ok := ast.Unparen(y.Args[0]).(*ast.Ident); ok && info.ObjectOf(id) == param {
+						hit = true
+					}
+				}
+			}
+		}
+		walk(rs.Results[0])
+		if !hit {
+			okAll = false
+		}
+		return true
+	})
+	return n > 0 && okAll
 }
